@@ -1,5 +1,11 @@
 package main
 
+import (
+	"strings"
+
+	"golang.org/x/tools/go/ssa"
+)
+
 func init() {
 	register("C15", runC15,
 		"Decides the structural guards without which an eviction cycle certainly exists (absence of livelock itself quantifies over infinite executions and is not decided): every eviction is ordered by a strict relation between evictor and victim — preempt only for a strictly higher priority inside one queue; reclaim only for a queue that stays within its fair share (and deserved quota) from a queue that remains strictly above its share; the saturation test refuses on equality with a multiplier clamped to ≥ 1 (NaN excluded); consolidation only when every victim is placed again — and evictions reach the cluster only together with the placement they were made for (one statement, committed only behind a successful attempt). Each guard is the obligation of the property that states it (C06, C07, C03), evaluated here under C15's own id.",
@@ -35,5 +41,69 @@ func runC15(c *Ctx) {
 	runC15Own(c)
 }
 
-// runC15Own: guards that no other property states (filled in props_c15b.go as they are written).
-func runC15Own(c *Ctx) {}
+// runC15Own: guards that no other property states. The solvers approve an eviction by SIMULATING the allocation that
+// the next cycle will really make; where the simulation sees the cluster differently from that allocation, it approves
+// evictions whose beneficiary the real allocate does not serve — the freed capacity goes back to the evicted workload
+// and the same eviction is approved again next cycle.
+func runC15Own(c *Ctx) {
+	p, fx := c.P, c.Fx
+	// O6: the simulation ranks queues over ALL workloads that have pending pods, exactly the set allocate works on
+	// (a running elastic workload with a pending extra pod included)
+	if gp := c.Anchor("O6", "pkg/scheduler/actions/utils", "", "GetAllPendingJobs"); gp != nil {
+		n := 0
+		for _, in := range instrsIn(gp, func(in ssa.Instruction) bool { _, ok := in.(*ssa.MapUpdate); return ok }) {
+			if loopHeaderOf(in.Block()) == nil {
+				continue
+			}
+			n++
+			ok, path := everyIterationPasses(in, func(x ssa.Instruction) bool { return x == in }, func(from, to *ssa.BasicBlock) bool {
+				// excused: the workload has no pending pod
+				return !fx.edgeEstablishes(from, to, func(f Fact) bool {
+					if f.T.Op != "bin" || len(f.T.Args) != 2 || !strings.Contains(f.T.String(), "PodStatusIndex") {
+						return false
+					}
+					zero := f.T.Args[1].String() == "const:0" || f.T.Args[0].String() == "const:0"
+					switch f.T.Name {
+					case ">", "<", "!=":
+						return zero && !f.Pol
+					case "==", "<=", ">=":
+						return zero && f.Pol
+					}
+					return false
+				})
+			})
+			c.Check(ok, "O6", "MPT", funcKey(gp)+": every workload with a pending pod takes part in the simulation", instrPos(in), "skipped only without pending pods",
+				"a workload that has pending pods can be left out of the job set the solvers simulate with ("+pathStr(path)+"): the simulation ranks its queue differently from the next cycle's allocate, approves an eviction whose capacity allocate then hands back to the victim, and approves it again every cycle")
+		}
+		c.Floor("O6", "MPT pending-job insertions", n, 1)
+	}
+	// O7: node scoring counts capacity that is being released as available. In a simulation the victim's resources
+	// are Releasing; in the next cycle they are Idle. A score computed from Idle alone orders the nodes differently in
+	// the two situations (spread: the victim's own node no longer looks emptiest).
+	nScore := 0
+	for _, fn := range p.FuncsIn("pkg/scheduler/plugins/nodeplacement") {
+		if isTestdataOrMock(fn) {
+			continue
+		}
+		for _, in := range instrsIn(fn, func(in ssa.Instruction) bool {
+			cc, ok := in.(ssa.CallInstruction)
+			if !ok || calleeOf(cc) == nil || calleeOf(cc).Name() != "Get" || len(cc.Common().Args) < 1 {
+				return false
+			}
+			lf := termOf(cc.Common().Args[0]).lastField()
+			return lf == "Idle" || lf == "Releasing"
+		}) {
+			nScore++
+			c.Viol("O7", "PROV", funcKey(fn)+": node scores are computed from idle + releasing capacity", instrPos(in),
+				"a node-placement score reads NodeInfo."+termOf(in.(ssa.CallInstruction).Common().Args[0]).lastField()+" alone instead of NonAllocatedResource (idle + releasing): simulated evictions do not change the score the way the real ones will, the simulation places the victim elsewhere and approves a move that the next cycle undoes")
+		}
+		for _, in := range instrsIn(fn, func(in ssa.Instruction) bool {
+			cc, ok := in.(ssa.CallInstruction)
+			return ok && calleeOf(cc) != nil && calleeOf(cc).Name() == "NonAllocatedResource"
+		}) {
+			nScore++
+			c.Hold("O7", "PROV", funcKey(fn)+": node scores are computed from idle + releasing capacity", instrPos(in), "NonAllocatedResource")
+		}
+	}
+	c.Floor("O7", "PROV node-placement capacity reads", nScore, 2)
+}
